@@ -186,6 +186,13 @@ func (s *State) checkFrameAll(where, what string) {
 }
 
 func (s *State) checkFrameWhole(base, where, what string) {
+	for _, lf := range s.loops {
+		if lf.L.MapRange != nil && strings.HasPrefix(base, "mapdom<") {
+			if it, ok := s.iters[lf.L.MapRange]; ok && base == "mapdom<"+typeKey(it.MapT)+">" {
+				s.oblige("safety", "ranged-map-unmodified@"+lf.L.Name, append([]string{"C19"}, s.defaultProps()...), "false", where, what+" may write the map being ranged over")
+			}
+		}
+	}
 	check := func(fr *frameSpec, scope string) {
 		if fr == nil || fr.Unrestricted || fr.Whole[base] {
 			return
